@@ -27,12 +27,50 @@ import (
 const c15Rule = "rapid draws of Go struct types as data over the wide kind universe (supported kinds, other integer widths, unsigned, complex, Go arrays, non-string map keys, " +
 	"interface/chan/func/unsafe.Pointer) with every tag combination, plus the committed catalogue of named types (reuse of a named struct, recursion, embedded and unexported fields, odd package path); " +
 	"oracle: an independent model of the documented mapping (spec.ModelSchema) for the documented subset, 'must be an error' for inexpressible kinds, 'error or schema' for undocumented kinds; " +
-	"determinism (two calls marshal identically), structural validity (no union in union, no repeated branch, named types defined once), Schema.Codec returns a codec or an error, marshal/parse stability; " +
+	"determinism (two calls marshal identically; a RegisterSchema change and change back is reflected by enclosing types generated before), structural validity (no union in union, no repeated branch, named types defined once), Schema.Codec returns a codec or an error, marshal/parse stability; " +
 	"non-trivial = >=2 nesting levels and one of: pointer to collection, omitempty on a pointer or registered type, registered type inside a collection, a tag with several options, a reused/recursive named type; distinct by type"
 
 type c15Case struct {
 	Type   spec.TypeSpec `json:"type"`
 	GoType string        `json:"go_type"`
+	// Flip: around this case the registered schema of the custom type is changed
+	// and changed back: schema generation is a function of the type AND the
+	// current registrations, for enclosing types seen before as well.
+	Flip bool `json:"flip,omitempty"`
+}
+
+type c15Holder struct {
+	A [5]uint16            `json:"a"`
+	B [][5]uint16          `json:"b"`
+	C map[string][5]uint16 `json:"c"`
+}
+
+func c15FlipCheck() error {
+	gen1 := func() (string, error) {
+		s, err := avro.SchemaForType(c15Holder{})
+		if err != nil {
+			return "", err
+		}
+		b, err := s.Marshal()
+		return string(b), err
+	}
+	const plain = `{"type":"record","name":"c15Holder","namespace":"verifh.checks","fields":[{"name":"a","type":"bytes"},{"name":"b","type":{"type":"array","items":"bytes"}},{"name":"c","type":{"type":"map","values":"bytes"}}]}`
+	const nullable = `{"type":"record","name":"c15Holder","namespace":"verifh.checks","fields":[{"name":"a","type":["null","bytes"]},{"name":"b","type":{"type":"array","items":["null","bytes"]}},{"name":"c","type":{"type":"map","values":["null","bytes"]}}]}`
+	before, err := gen1()
+	if err != nil || before != plain {
+		return fmt.Errorf("schema of a type holding a registered type: %s (err %v)", before, err)
+	}
+	avro.RegisterSchema(u16x5Type, toLib(ref.Nullable(ref.Prim("bytes"))))
+	during, err := gen1()
+	avro.RegisterSchema(u16x5Type, toLib(ref.Prim("bytes")))
+	if err != nil || during != nullable {
+		return fmt.Errorf("after RegisterSchema changed the schema of [5]uint16, the schema of an enclosing type generated earlier still reads %s (err %v)", during, err)
+	}
+	after, err := gen1()
+	if err != nil || after != plain {
+		return fmt.Errorf("after the registration was changed back, the enclosing type's schema reads %s (err %v)", after, err)
+	}
+	return nil
 }
 
 func init() {
@@ -148,6 +186,11 @@ func runC15With(c c15Case, strict bool, schemaForType func(interface{}) (avro.Sc
 	ts := c.Type
 	if ts.Cat != "" && cat.Get(ts.Cat) != nil {
 		ts = cat.Get(ts.Cat).Spec
+	}
+	if c.Flip {
+		if err := c15FlipCheck(); err != nil {
+			return true, []string{"registration_flip"}, err
+		}
 	}
 	nt, labels := c15Labels(ts)
 	typ := spec.Build(ts)
@@ -297,6 +340,7 @@ func drawC15(t *rapid.T) c15Case {
 		c.Type = gen.StructType(t, o, 1)
 	}
 	c.GoType = c.Type.GoString()
+	c.Flip = gen.Uniform(t, "flip", 50) == 0
 	return c
 }
 
